@@ -46,8 +46,8 @@ P("C08", "exploration", native=True,
 P("C18", "fault_enumeration", native=True,
   explanation="Kani models panic as abort and no verifier here executes thread / task join errors, so this is fault enumeration: a panic is injected natively at every (branch, step) callback position of 7 (thorough 11) depth profiles under 8 macro kinds (sync, thread-spawning, async, tokio-spawning), inside catch_unwind and a 25 s watchdog. Deductive part: every spawned thread's handle is joined and unwrapped (`.join().unwrap()` per active branch, generate_thread_builders_and_spawn_joiners), which is what re-raises the panic on the caller",
   unbounded="one `.join().unwrap()` per active branch of a spawned step (token level)",
-  bounded="panic positions: callbacks only (not block captures / handlers); quick tier every other position",
-  not_decided="the tokio JoinError path is exercised, not proved; panics in captures and handlers")
+  bounded="panic positions: every callback (quick tier: every other one), every block capture and the final handler of 2 (thorough 4) profiles, and branch 0 panicking while its later-numbered siblings are blocked until the caller has returned; one schedule per run",
+  not_decided="the tokio JoinError path is exercised, not proved; panics inside nested macros")
 
 NOT_APPLICABLE = {
 }
